@@ -1,14 +1,9 @@
 //go:build verif
 
-package pptx
+package xlsx
 
-// VerifIsFooterPlaceholder exposes isFooterPlaceholder (verification harness only).
-func VerifIsFooterPlaceholder(phType string) bool { return isFooterPlaceholder(phType) }
-
-// VerifIsHeaderPlaceholder exposes isHeaderPlaceholder (verification harness only).
-func VerifIsHeaderPlaceholder(phType string) bool { return isHeaderPlaceholder(phType) }
-
-// ---- C15: document-level Markdown model ----
+// Verification hooks (add-only, compiled only with -tags verif): exported wrappers for the
+// external correspondence harness (C15: document-level Markdown model).
 
 // VerifMeta is what Metadata() reads: docProps/core.xml (title, creator, subject, the
 // comma-separated keywords string) and docProps/app.xml (Application). HasCore / HasApp
@@ -23,10 +18,10 @@ type VerifMeta struct {
 	Application string
 }
 
-// VerifNewReader builds a Reader (no package behind it) holding the given slides and
+// VerifNewReader builds a Reader (no package behind it) holding the given sheets and
 // document properties: what Markdown, MarkdownWithOptions and MarkdownWithRAGOptions read.
-func VerifNewReader(slides []*Slide, meta VerifMeta) *Reader {
-	r := &Reader{slides: slides, slideRels: make(map[int]*relationshipsXML)}
+func VerifNewReader(sheets []*Sheet, meta VerifMeta) *Reader {
+	r := &Reader{sheets: sheets, sheetRels: make(map[string]string)}
 	if meta.HasCore {
 		r.coreProps = &corePropertiesXML{Title: meta.Title, Creator: meta.Creator, Subject: meta.Subject, Keywords: meta.Keywords}
 	}
@@ -34,4 +29,9 @@ func VerifNewReader(slides []*Slide, meta VerifMeta) *Reader {
 		r.appProps = &appPropertiesXML{Application: meta.Application}
 	}
 	return r
+}
+
+// VerifFindContentBounds exposes (*Reader).findContentBounds (it reads nothing of the reader).
+func VerifFindContentBounds(sheet *Sheet) (minRow, maxRow, minCol, maxCol int) {
+	return (&Reader{}).findContentBounds(sheet)
 }
